@@ -8,6 +8,8 @@ import (
 	"fmt"
 	"go/types"
 	"math"
+	"os"
+	"path/filepath"
 	"regexp"
 	"strconv"
 	"strings"
@@ -1033,6 +1035,53 @@ func init() {
 
 	externals["internal/stringslite.Clone"] = func(fr *frame, args []value) (value, bool) { return done(args[0]) }
 	externals["strings.Clone"] = externals["internal/stringslite.Clone"]
+	// ---------------- embed.FS: files are read from the package directory
+	externals["(embed.FS).Open"] = func(fr *frame, args []value) (value, bool) {
+		in := fr.in
+		name, _ := args[1].(string)
+		// the embedding package is the one whose code calls Open
+		var dir string
+		for c := fr.caller; c != nil; c = c.caller {
+			if c.fn.Pkg != nil && c.fn.Pkg.Pkg.Path() != "embed" {
+				if pos := c.fn.Pos(); pos.IsValid() {
+					dir = filepath.Dir(in.prog.Fset.Position(pos).Filename)
+				}
+				break
+			}
+		}
+		data, err := os.ReadFile(filepath.Join(dir, name))
+		if err != nil {
+			return done(tuple{iface{}, in.newError("open " + name + ": file does not exist")})
+		}
+		newReader := in.pkgFunc("bytes", "NewReader")
+		nop := in.pkgFunc("io", "NopCloser")
+		if newReader == nil || nop == nil {
+			panic(in.unsupported("embed.FS.Open needs bytes.NewReader and io.NopCloser"))
+		}
+		rd := in.call(fr, 0, newReader, []value{fromHostBytes(data)})
+		rdT := types.NewPointer(in.prog.ImportedPackage("bytes").Type("Reader").Type())
+		rc := in.call(fr, 0, nop, []value{iface{t: rdT, v: rd}})
+		return done(tuple{rc, iface{}})
+	}
+	externals["(embed.FS).ReadFile"] = func(fr *frame, args []value) (value, bool) {
+		in := fr.in
+		name, _ := args[1].(string)
+		var dir string
+		for c := fr.caller; c != nil; c = c.caller {
+			if c.fn.Pkg != nil && c.fn.Pkg.Pkg.Path() != "embed" {
+				if pos := c.fn.Pos(); pos.IsValid() {
+					dir = filepath.Dir(in.prog.Fset.Position(pos).Filename)
+				}
+				break
+			}
+		}
+		data, err := os.ReadFile(filepath.Join(dir, name))
+		if err != nil {
+			return done(tuple{[]value(nil), in.newError("open " + name + ": file does not exist")})
+		}
+		return done(tuple{fromHostBytes(data), iface{}})
+	}
+
 	// ---------------- maps / runtime helpers
 	externals["maps.clone"] = func(fr *frame, args []value) (value, bool) {
 		it := args[0].(iface)
